@@ -21,9 +21,9 @@ def judge(rs):
 def run(ctx):
     rs = []
     for w in WHICH:
-        rs += sc.run_sched(ctx, w, (25 if ctx.tier == "quick" else 2000) if w == "stress" else 0, ctx.seed)
+        rs += sc.run_sched(ctx, w, (25 if ctx.tier == "quick" else 400) if w == "stress" else 0, ctx.seed)
     sm = judge(rs)
-    srs = sc.run_sched(ctx, "splitread", 60 if ctx.tier == "quick" else 3000, ctx.seed)
+    srs = sc.run_sched(ctx, "splitread", 60 if ctx.tier == "quick" else 1200, ctx.seed)
     mm, nsh, nok = sc.sr_evaluate(ctx, srs, "c04sr")
     for r in srs:
         sm += sc.splitread_oracle(r)
@@ -96,7 +96,7 @@ def replay(ctx, path):
         return 1
     rs = []
     if case.get("scenario") == "splitread":
-        srs = sc.run_sched(ctx, "splitread", 60 if case["i"] < 60 else 3000, case["seed"])
+        srs = sc.run_sched(ctx, "splitread", 60 if case["i"] < 60 else 1200, case["seed"])
         viol = [v for r in srs for v in sc.splitread_oracle(r)]
         mm, _, _ = sc.sr_evaluate(ctx, [r for r in srs if r["i"] == case["i"]], "c04replay")
         for m in mm:
